@@ -296,6 +296,12 @@ def render(d, line0=0):
     pre = ''.join(x + '\n' for x in d.get('pre_attrs') or [])
     post = ''.join(x + '\n' for x in d.get('post_attrs') or [])
     wh = ' ' + d['where'] if d.get('where') else ''
+    if d.get('via_macro'):
+        # the declaration is produced by a user's macro_rules!, the bound arrives as an `expr` fragment
+        # (an invisible-delimiter group by the time the attribute macro sees it)
+        body = f"{render_attr(d, line0 + 2)}\n{vis}struct {d['name']}{g}({d['inner']});"
+        return (f"macro_rules! mk_{d['name']} {{\n    ($e:expr) => {{\n{body}\n    }};\n}}\n"
+                f"mk_{d['name']}!({d['via_macro']});\n")
     return f"{pre}{render_attr(d, line0 + len(d.get('pre_attrs') or []))}\n{post}{vis}struct {d['name']}{g}({d['inner']}){wh};\n"
 
 
@@ -845,8 +851,11 @@ def build(tier='quick', seed=0):
             [V('greater_or_equal', '3.0', 3.0, 'lit')],
             [V('less_or_equal', '3.0', 3.0, 'lit')],
         ]
+        big = ('1e32', f32_round(1e32)) if t == 'f32' else ('1e300', 1e300)
         for bk, bt, bv in (('greater_or_equal', '0.0', 0.0), ('greater', '1.5', 1.5), ('less_or_equal', '0.0', 0.0), ('less', '-1.5', -1.5),
-                           ('greater_or_equal', '1e30', 1e30), ('less', '100', 100.0)):
+                           ('greater_or_equal', '1e30', 1e30), ('less', '100', 100.0),
+                           # bounds of a magnitude where |basic| + bound leaves the finite range
+                           ('greater_or_equal', big[0], big[1]), ('less_or_equal', '-' + big[0], -big[1]), ('greater', big[0], big[1])):
             arb_cases.append([V(bk, bt, bv, 'lit'), V('finite')])
             arb_cases.append([V('finite'), V(bk, bt, bv, 'lit')])
         # ranges whose end points are not exactly representable / where lower + 1.0 * (upper - lower) rounds above upper
@@ -861,6 +870,11 @@ def build(tier='quick', seed=0):
             arb_cases.append([V('greater_or_equal', '36.6', 36.6, 'lit'), V('less_or_equal', '36.60000000000001', 36.60000000000001, 'lit')])
         else:
             arb_cases.append([V('greater_or_equal', '36.6', rr(36.6), 'lit'), V('less_or_equal', '36.600006', rr(36.600006), 'lit')])
+        # two-sided with an infinite end point: the scaling `lower + t * (upper - lower)` has an infinite range
+        arb_cases.append([V('greater_or_equal', '0.0', 0.0, 'lit'), V('less_or_equal', f'{t}::INFINITY', float('inf'), 'expr')])
+        arb_cases.append([V('greater', f'{t}::NEG_INFINITY', float('-inf'), 'expr'), V('less', '0.0', 0.0, 'lit'), V('finite')])
+        wide = ('3.0e38', f32_round(3.0e38)) if t == 'f32' else ('1.0e308', 1.0e308)
+        arb_cases.append([V('finite'), V('greater_or_equal', '-' + wide[0], -wide[1], 'lit'), V('less_or_equal', wide[0], wide[1], 'lit')])
         for vs in arb_cases:
             full.append(decl('float', t, validators=vs, derives=['Debug', 'Arbitrary'], tags=['arb']))
         full.append(decl('float', t, derives=['Debug', 'Arbitrary'], tags=['arb']))
@@ -1141,8 +1155,25 @@ def build(tier='quick', seed=0):
     nostd.append(decl('any', 'alloc::vec::Vec<T>', generics='<T>', validators=[V('predicate', '|v| !v.is_empty()', form='closure')],
                       derives=['Debug', 'Clone', 'PartialEq', 'AsRef', 'Deref', 'Into', 'IntoIterator', 'TryFrom', 'Serialize', 'Deserialize'], tags=['nostd']))
     nostd.append(decl('any', 'alloc::vec::Vec<u8>', derives=['Debug', 'Clone', 'From', 'IntoIterator', 'Arbitrary', 'Serialize', 'Deserialize'], tags=['nostd']))
+    # "other" inner types that merely mention str / String
+    nostd.append(decl('any', "&'a str", generics="<'a>", validators=[V('predicate', '|s| !s.is_empty()', form='closure')],
+                      derives=['Debug', 'Clone', 'Copy', 'PartialEq', 'Eq', 'AsRef', 'Deref', 'Into', 'Display', 'TryFrom'], tags=['nostd']))
+    nostd.append(decl('any', "Option<&'static str>", derives=['Debug', 'Clone', 'Copy', 'PartialEq', 'AsRef', 'Into', 'From'], tags=['nostd']))
+    nostd.append(decl('any', "alloc::borrow::Cow<'a, str>", generics="<'a>", derives=['Debug', 'Clone', 'PartialEq', 'AsRef', 'Deref', 'Into', 'From'], tags=['nostd']))
+    nostd.append(decl('any', 'alloc::vec::Vec<alloc::string::String>', sanitizers=[S('with', '|mut v| { v.sort(); v }', 'closure')],
+                      derives=['Debug', 'Clone', 'PartialEq', 'AsRef', 'Deref', 'Into', 'From'], tags=['nostd']))
     nostd.append(decl('any', 'Point', custom={'with_text': 'check_point', 'form': 'path', 'callee': 'check_point', 'error': 'MyErr'},
                       derives=['Debug', 'TryFrom', 'FromStr'], tags=['nostd']))
+
+    # schemars08: a transparent derive next to the generated ones
+    full.append(decl('int', 'i32', validators=[V('greater_or_equal', '1', 1, 'lit'), V('less', '100', 100, 'lit')],
+                     derives=full_derives('int', True) + ['JsonSchema'], tags=['schemars']))
+    full.append(decl('int', 'u8', derives=full_derives('int', False) + ['JsonSchema'], tags=['schemars']))
+    full.append(decl('float', 'f64', validators=[V('finite'), V('greater', '0.0', 0.0, 'lit')],
+                     derives=full_derives('float', True, has_finite=True) + ['JsonSchema'], tags=['schemars']))
+    full.append(decl('string', 'String', sanitizers=[S('trim'), S('lowercase')], validators=[V('not_empty'), V('len_char_max', '20', 20, 'lit')],
+                     derives=full_derives('string', True) + ['JsonSchema'], tags=['schemars']))
+    full.append(decl('string', 'String', derives=['Debug', 'JsonSchema', 'From', 'Serialize', 'Deserialize'], tags=['schemars']))
 
     # validators that every value of the inner type satisfies (a bound at the edge of the domain): still declared, so still a
     # variant, a check and a message
@@ -1155,6 +1186,14 @@ def build(tier='quick', seed=0):
         decl('int', 'u8', validators=[V('greater', '3', 3, 'lit'), V('less_or_equal', '255', 255, 'lit')], derives=['Debug', 'TryFrom', 'Arbitrary'], tags=['trivial']),
         decl('int', 'i8', validators=[V('greater_or_equal', '-128', -128, 'lit'), V('less_or_equal', '127', 127, 'lit')], derives=['Debug', 'TryFrom', 'Arbitrary'], tags=['trivial']),
         decl('int', 'u16', validators=[V('greater_or_equal', '0', 0, 'lit')], derives=['Debug', 'TryFrom', 'FromStr'], tags=['trivial']),
+        # ... and the exclusive neighbours, which exclude exactly one value
+        decl('int', 'u8', validators=[V('greater', '0', 0, 'lit')], derives=['Debug', 'TryFrom', 'Arbitrary'], tags=['trivial']),
+        decl('int', 'u8', validators=[V('less', '255', 255, 'lit')], derives=['Debug', 'TryFrom', 'Arbitrary'], tags=['trivial']),
+        decl('int', 'i8', validators=[V('greater', '-128', -128, 'lit'), V('less', '127', 127, 'lit')], derives=['Debug', 'TryFrom', 'Arbitrary'], tags=['trivial']),
+        decl('int', 'u64', validators=[V('less', '18_446_744_073_709_551_615', 18446744073709551615, 'lit')], derives=['Debug', 'TryFrom', 'Arbitrary'], tags=['trivial']),
+        decl('int', 'i128', validators=[V('greater', '-170141183460469231731687303715884105728', -170141183460469231731687303715884105728, 'lit')],
+             derives=['Debug', 'TryFrom', 'Arbitrary'], tags=['trivial']),
+        decl('int', 'usize', validators=[V('greater', '0', 0, 'lit')], derives=['Debug', 'TryFrom'], tags=['trivial']),
         decl('int', 'i64', validators=[V('less_or_equal', '9223372036854775807', 9223372036854775807, 'lit'), V('greater', '0', 0, 'lit')], derives=['Debug', 'TryFrom'], tags=['trivial']),
         decl('float', 'f64', validators=[V('greater_or_equal', 'f64::NEG_INFINITY', float('-inf'), 'expr'), V('less', '1.0', 1.0, 'lit')], derives=['Debug', 'TryFrom'], tags=['trivial']),
         decl('float', 'f32', validators=[V('less_or_equal', 'f32::INFINITY', float('inf'), 'expr')], derives=['Debug', 'TryFrom'], tags=['trivial']),
@@ -1181,12 +1220,30 @@ def build(tier='quick', seed=0):
                      derives=['Debug', 'TryFrom', 'FromStr'], tags=['forms']))
     full.append(decl('int', 'i32', sanitizers=[S('with', '|x: i32| -> i32 { x.wrapping_abs() }', 'closure')], validators=[V('less', '10', 10, 'lit')],
                      derives=['Debug', 'TryFrom'], tags=['forms']))
+    full.append(decl('int', 'i64', sanitizers=[S('with', 'move |x: i64| x / 2', 'closure')], validators=[V('predicate', 'move |x: &i64| *x != 4', form='closure')],
+                     derives=['Debug', 'TryFrom', 'FromStr'], tags=['forms']))
+    full.append(decl('int', 'u16', sanitizers=[S('with', '|_x| 7', 'closure')], derives=['Debug', 'From'], tags=['forms']))
+    full.append(decl('int', 'u16', sanitizers=[S('with', '|x| -> u16 { x + 1 }', 'closure')], derives=['Debug', 'From'], tags=['forms']))
+    full.append(decl('string', 'String', sanitizers=[S('with', '|s| { if s.starts_with(\'#\') { return s; } s.replace(\'_\', " ") }', 'closure'), S('trim'), S('lowercase')],
+                     validators=[V('not_empty'), V('len_char_max', '5', 5, 'lit')], derives=['Debug', 'TryFrom'], tags=['forms']))
     full.append(decl('float', 'f64', validators=[V('predicate', 'helpers::deep::pred_hf', form='path', callee='helpers::deep::pred_hf'), V('finite')],
                      derives=['Debug', 'TryFrom'], tags=['forms']))
     full.append(X(decl('int', 'i32', validators=[V('greater', '1', 1, 'lit')], derives=['Debug', 'TryFrom', 'Display'], tags=['forms']),
                   pre_attrs=['/// a documented newtype', '#[doc = "second line"]'], post_attrs=['/// docs between the attribute and the item']))
     full.append(X(decl('string', 'String', sanitizers=[S('trim')], validators=[V('not_empty')], derives=['Debug', 'TryFrom', 'AsRef'], tags=['forms']),
                   post_attrs=['#[doc(hidden)]']))
+
+    # declarations produced by a user's macro_rules!: the bound is an `expr` fragment whose top-level operator binds weaker
+    # than the `+ 1` / `- 1` the Arbitrary template appends, or than a unary minus
+    for t in ['u8', 'i32']:
+        U = t.upper()
+        for kind, frag, val in (('less', f'K_{U} << 3', K << 3), ('greater', f'K_{U} | 8', K | 8), ('less_or_equal', f'K_{U} << 1', K << 1),
+                                ('greater_or_equal', f'K_{U} & 4', K & 4), ('less', f'K_{U} + 1', K + 1), ('greater', '3', 3)):
+            full.append(X(decl('int', t, validators=[V(kind, '$e', val, 'expr')], derives=['Debug', 'TryFrom', 'Arbitrary'], tags=['via-macro']), via_macro=frag))
+    full.append(X(decl('float', 'f64', validators=[V('greater', '$e', KF + 1.0, 'expr'), V('finite')], derives=['Debug', 'TryFrom', 'Arbitrary'], tags=['via-macro']),
+                  via_macro='KF_F64 + 1.0'))
+    full.append(X(decl('string', 'String', validators=[V('len_char_max', '$e', MINLEN + 2, 'expr')], derives=['Debug', 'TryFrom', 'Arbitrary'], tags=['via-macro']),
+                  via_macro='MINLEN + 2'))
 
     # less common spellings of a bound: every one is an ordinary Rust expression of the inner type
     for t in ['i32', 'u64', 'i8']:
@@ -1261,7 +1318,7 @@ def build(tier='quick', seed=0):
     crates = {}
     extra = '\npub const fn pred_point_c(p: &Point) -> bool { p.x != p.y }\n'
     for i, ch in enumerate(chunks):
-        crates[f'cfull{i}'] = {'features': ['serde', 'arbitrary', 'new_unchecked', 'regex'], 'std': True,
+        crates[f'cfull{i}'] = {'features': ['serde', 'arbitrary', 'new_unchecked', 'regex', 'schemars08'], 'std': True,
                                'prelude': PRELUDE_STD + PRELUDE_REGEX + extra + numeric_prelude(), 'decls': ch}
     bare = []
     for d in full:
